@@ -276,27 +276,53 @@ Proof.
   apply IH. destruct H as (TC & Q). split; [eapply attach_core; eassumption|eapply qc_attach; [exact (proj1 TC)|exact E|exact Q]].
 Qed.
 
+(* completeness speaks about converters that answer: histories / schedules in which no conversion fails.  A failing
+   conversion (ABodyConvert with a non-empty list) is discarded after the second attempt and leaves no output. *)
+Definition nofail (a : action) : Prop := match a with ABodyConvert bad => bad = [] | _ => True end.
+Definition nofail_history (l : list (N * action)) : Prop := Forall (fun pa => nofail (snd pa)) l.
+
+Lemma conv_ok_nil nx c i : conv_ok [] nx c i = (i <? nx).
+Proof. unfold conv_ok. simpl. apply andb_true_r. Qed.
+
 (* the converter job body caches everything it was given *)
 Lemma J_bconv st j c id : jconv st = Some j -> cj_done j = false -> NoDup (map fst (cj_sets j)) ->
-  (forall cs, In cs (cj_sets j) -> bounded (cj_next j) (snd cs)) -> J st c id -> J (bconv_state st j) c id.
+  (forall cs, In cs (cj_sets j) -> bounded (cj_next j) (snd cs)) -> J st c id -> J (bconv_state [] st j) c id.
 Proof.
   intros JC D ND BD [H|[H|(j0 & E1 & E2 & s & I & M)]].
   - left. unfold bconv_state. simpl. destruct (cache st c id); [discriminate|congruence].
   - right. left. exact H.
   - rewrite JC in E1. inversion E1; subst j0. left. unfold bconv_state. simpl.
     destruct (cache st c id) eqn:CC; [discriminate|].
-    assert (lookupN c (bconv_sets st j) = fold_left (fun a i => match cache st c i with Some _ => a | None => if i <? cj_next j then add1 i a else a end) (elems s) 0) as ->.
+    assert (lookupN c (bconv_sets [] st j) = fold_left (fun a i => match cache st c i with Some _ => a | None => if conv_ok [] (cj_next j) c i then add1 i a else a end) (elems s) 0) as ->.
     { apply lookupN_nodup; [unfold bconv_sets; rewrite map_map; simpl; exact ND|].
       unfold bconv_sets. apply in_map_iff. exists (c, s). split; [reflexivity|exact I]. }
-    assert (mem id (fold_left (fun a i => match cache st c i with Some _ => a | None => if i <? cj_next j then add1 i a else a end) (elems s) 0) = true) as ->; [|discriminate].
+    assert (mem id (fold_left (fun a i => match cache st c i with Some _ => a | None => if conv_ok [] (cj_next j) c i then add1 i a else a end) (elems s) 0) = true) as ->; [|discriminate].
     pose proof (BD (c, s) I id M) as Lt. simpl in Lt. apply elems_complete in M. clear - M CC Lt.
     assert (forall l acc, (mem id acc = true \/ In id l) ->
-       mem id (fold_left (fun a i => match cache st c i with Some _ => a | None => if i <? cj_next j then add1 i a else a end) l acc) = true) as G.
+       mem id (fold_left (fun a i => match cache st c i with Some _ => a | None => if conv_ok [] (cj_next j) c i then add1 i a else a end) l acc) = true) as G.
     { induction l as [|x l IH]; simpl; intros acc [H|H]; try exact H; try (destruct H; fail).
-      - apply IH. left. destruct (cache st c x); [exact H|]. destruct (x <? cj_next j); [rewrite mem_add1, H; reflexivity|exact H].
+      - apply IH. left. destruct (cache st c x); [exact H|]. destruct (conv_ok [] (cj_next j) c x); [rewrite mem_add1, H; reflexivity|exact H].
       - destruct H as [->|H]; apply IH; [left|right; exact H].
-        rewrite CC. destruct (N.ltb_spec id (cj_next j)); [rewrite mem_add1, N.eqb_refl; apply orb_true_r|lia]. }
+        rewrite CC, conv_ok_nil. destruct (N.ltb_spec id (cj_next j)); [rewrite mem_add1, N.eqb_refl; apply orb_true_r|lia]. }
     apply G. right. exact M.
+Qed.
+
+(* a conversion that fails leaves no output *)
+Lemma failed_not_cached bad st j c i : memN c (map fst (cj_sets j)) = true \/ True ->
+  existsb (fun p => (fst p =? c) && (snd p =? i)) bad = true -> cache st c i = None -> NoDup (map fst (cj_sets j)) ->
+  cache (bconv_state bad st j) c i = None.
+Proof.
+  intros _ B CC ND. unfold bconv_state. simpl. rewrite CC.
+  destruct (mem i (lookupN c (bconv_sets bad st j))) eqn:M; [|reflexivity]. exfalso.
+  unfold lookupN in M. destruct (find (fun p => fst p =? c) (bconv_sets bad st j)) as [[c0 s0]|] eqn:F; [|rewrite mem_0 in M; discriminate].
+  simpl in M. destruct (find_some _ _ F) as (I & E). simpl in E. apply N.eqb_eq in E. subst c0.
+  unfold bconv_sets in I. apply in_map_iff in I. destruct I as (cs & E & _). inversion E; subst; clear E.
+  assert (forall l acc, mem i (fold_left (fun a x => match cache st (fst cs) x with Some _ => a | None => if conv_ok bad (cj_next j) (fst cs) x then add1 x a else a end) l acc) = true -> mem i acc = true) as G.
+  { induction l as [|x l IH]; simpl; intros acc H; [exact H|]. apply IH in H.
+    destruct (cache st (fst cs) x); [exact H|]. destruct (conv_ok bad (cj_next j) (fst cs) x) eqn:CO; [|exact H].
+    rewrite mem_add1 in H. apply orb_true_iff in H. destruct H as [H|H]; [exact H|]. apply N.eqb_eq in H. subst x.
+    unfold conv_ok in CO. rewrite B in CO. rewrite andb_false_r in CO. discriminate. }
+  apply G in M. rewrite mem_0 in M. discriminate.
 Qed.
 
 (* ---------------------------------------------------------------- QC is preserved by every action *)
@@ -337,9 +363,9 @@ Qed.
 Lemma qc_tags_cm st ts' : QC st -> Forall2 cm1 (tags st) ts' -> QC (set_tags st ts').
 Proof. intros Q CM. apply (qc_cm st); [exact Q|exact CM|intros c id; apply J_frame; reflexivity]. Qed.
 
-Theorem qc_step p a st : Tinv st -> Qinv st -> valid st a -> QC (step repaired p a st).
+Theorem qc_step p a st : Tinv st -> Qinv st -> valid st a -> nofail a -> QC (step repaired p a st).
 Proof.
-  intros TI (Q & QA) V. pose proof (proj1 (Tinv_split st) TI) as (TC & _ & _). pose proof TC as (So & _).
+  intros TI (Q & QA) V NF. pose proof (proj1 (Tinv_split st) TI) as (TC & _ & _). pose proof TC as (So & _).
   destruct a.
   - (* AImport *) simpl. destruct files; [exact Q|]. match goal with |- context[if ?b then _ else _] => destruct b end;
       (apply (qc_cm st); [exact Q|apply cm_refl|intros c id; apply J_frame; reflexivity]).
@@ -403,7 +429,7 @@ Proof.
   - (* ABodyTag *) simpl. destruct (jtag st) as [j|]; [|exact Q]. destruct (tj_res j); [exact Q|].
     apply (qc_cm st); [exact Q|apply cm_refl|intros c id; apply J_frame; reflexivity].
   - (* ABodyConvert *) destruct (jconv st) as [j|] eqn:JC; [|simpl; rewrite JC; exact Q].
-    destruct (cj_done j) eqn:D; [simpl; rewrite JC, D; exact Q|]. rewrite (bconv_eq st p j JC D).
+    destruct (cj_done j) eqn:D; [simpl; rewrite JC, D; exact Q|]. simpl in NF. subst bad. rewrite (bconv_eq st p [] j JC D).
     destruct TC as (_ & _ & _ & _ & _ & _ & _ & _ & _ & (_ & NJ) & _). destruct (NJ j JC) as (ND & _). destruct QA as (_ & BJ).
     apply (qc_cm st); [exact Q|apply cm_refl|intros c id; apply J_bconv; auto].
   - (* ABodyMerge *) simpl. destruct (jmerge st) as [j|]; [|exact Q]. destruct (mj_res j); [exact Q|].
@@ -570,7 +596,7 @@ Proof.
   - simpl. destruct (jimp st) as [j|]; [|exact QB]. destruct (ij_resp j); [exact QB|]. apply (qb_frame st); try reflexivity; exact QB.
   - simpl. destruct (jtag st) as [j|]; [|exact QB]. destruct (tj_res j); [exact QB|]. apply (qb_frame st); try reflexivity; exact QB.
   - destruct (jconv st) as [j|] eqn:JC; [|simpl; rewrite JC; exact QB].
-    destruct (cj_done j) eqn:D; [simpl; rewrite JC, D; exact QB|]. rewrite (bconv_eq st p j JC D).
+    destruct (cj_done j) eqn:D; [simpl; rewrite JC, D; exact QB|]. rewrite (bconv_eq st p bad j JC D).
     destruct QB as (A & B). split; [exact A|]. intros j' E D'. unfold bconv_state in E. simpl in E. inversion E; subst. discriminate.
   - simpl. destruct (jmerge st) as [j|]; [|exact QB]. destruct (mj_res j); [exact QB|]. apply (qb_frame st); try reflexivity; exact QB.
   - destruct k.
@@ -616,8 +642,8 @@ Proof.
 Qed.
 
 (* ---------------------------------------------------------------- the invariant along every history, completeness at rest *)
-Theorem qinv_step p a st : Tinv st -> Qinv st -> valid st a -> Qinv (step repaired p a st).
-Proof. intros TI Q V. split; [apply qc_step; assumption|apply qb_step; [exact TI|exact (proj2 Q)|exact V]]. Qed.
+Theorem qinv_step p a st : Tinv st -> Qinv st -> valid st a -> nofail a -> Qinv (step repaired p a st).
+Proof. intros TI Q V NF. split; [apply qc_step; assumption|apply qb_step; [exact TI|exact (proj2 Q)|exact V]]. Qed.
 
 Lemma qinv_init cs : Qinv (init cs).
 Proof.
@@ -627,20 +653,39 @@ Proof.
   - intros j E. discriminate.
 Qed.
 
-Theorem qinv_reachable cs l : NoDup cs -> valid_history (init cs) l -> Qinv (run repaired l (init cs)).
+Theorem qinv_reachable cs l : NoDup cs -> valid_history (init cs) l -> nofail_history l -> Qinv (run repaired l (init cs)).
 Proof.
-  intros ND. assert (forall st, Tinv st -> Qinv st -> valid_history st l -> Qinv (run repaired l st)) as G.
-  { unfold run. induction l as [|[p a] l IH]; simpl; intros st TI Q V; [exact Q|].
-    destruct V as (V1 & V2). apply IH; [apply Tinv_step; assumption|apply qinv_step; assumption|exact V2]. }
-  intros V. apply G; [apply Tinv_init; exact ND|apply qinv_init|exact V].
+  intros ND. assert (forall st, Tinv st -> Qinv st -> valid_history st l -> nofail_history l -> Qinv (run repaired l st)) as G.
+  { unfold run. induction l as [|[p a] l IH]; simpl; intros st TI Q V NF; [exact Q|].
+    destruct V as (V1 & V2). inversion NF; subst. apply IH; [apply Tinv_step; assumption|apply qinv_step; assumption|exact V2|assumption]. }
+  intros V NF. apply G; [apply Tinv_init; exact ND|apply qinv_init|exact V|exact NF].
 Qed.
 
-Lemma qinv_jsteps st st' : Tinv st -> Qinv st -> jsteps st st' -> Qinv st'.
+(* schedules of job steps in which no conversion fails *)
+Definition jstep0 (st st' : state) : Prop := exists p a, enabled st a /\ nofail a /\ st' = step repaired p a st.
+Inductive jsteps0 : state -> state -> Prop :=
+| js0_refl st : jsteps0 st st
+| js0_step st st' st'' : jstep0 st st' -> jsteps0 st' st'' -> jsteps0 st st''.
+
+Lemma jstep0_jstep st st' : jstep0 st st' -> jstep st st'.
+Proof. intros (p & a & En & _ & E). exists p, a. split; assumption. Qed.
+Lemma jsteps0_jsteps st st' : jsteps0 st st' -> jsteps st st'.
+Proof. induction 1; [constructor|econstructor; [apply jstep0_jstep; eassumption|assumption]]. Qed.
+
+(* nothing can run without a failure <-> nothing can run at all (a converter body is enabled whatever fails) *)
+Lemma stuck0_stuck st : (forall st', ~ jstep0 st st') -> forall st', ~ jstep st st'.
 Proof.
-  intros TI Q H. induction H as [|st st' st'' (p & a & En & E) H IH]; [exact Q|]. subst st'.
+  intros ST st' (p & a & En & E).
+  destruct a; try (apply (ST st'); exists p; eexists; split; [exact En|split; [exact I|exact E]]; fail).
+  apply (ST (step repaired p (ABodyConvert []) st)). exists p, (ABodyConvert []). split; [exact En|split; reflexivity].
+Qed.
+
+Lemma qinv_jsteps st st' : Tinv st -> Qinv st -> jsteps0 st st' -> Qinv st'.
+Proof.
+  intros TI Q H. induction H as [|st st' st'' (p & a & En & NF & E) H IH]; [exact Q|]. subst st'.
   apply IH.
   - eapply Tinv_jstep; [exact TI|]. exists p, a. split; [exact En|reflexivity].
-  - apply qinv_step; [exact TI|exact Q|]. destruct a; try exact I; try (destruct En; fail). exact (proj2 En).
+  - apply qinv_step; [exact TI|exact Q| |exact NF]. destruct a; try exact I; try (destruct En; fail). exact (proj2 En).
 Qed.
 
 (* at rest every stream matching a tag with an attached converter has cached output of its current version *)
@@ -674,13 +719,14 @@ Proof.
 Qed.
 
 (* every schedule from every reachable state ends with complete, current converter output *)
-Theorem reachable_complete cs l st' : NoDup cs -> valid_history (init cs) l ->
-  jsteps (run repaired l (init cs)) st' -> (forall st'', ~ jstep st' st'') ->
+Theorem reachable_complete cs l st' : NoDup cs -> valid_history (init cs) l -> nofail_history l ->
+  jsteps0 (run repaired l (init cs)) st' -> (forall st'', ~ jstep0 st' st'') ->
   forall n t c id, In (n, t) (tags st') -> t_live t = true -> memN c (t_conv t) = true -> memN c (convs st') = true ->
   mem id (t_m t) = true -> cache st' c id = Some (ver st' id).
 Proof.
-  intros ND V JS ST. pose proof (Tinv_reachable cs l ND V) as TI0. pose proof (qinv_reachable cs l ND V) as Q0.
-  pose proof (Tinv_jsteps _ _ TI0 JS) as TI. pose proof (qinv_jsteps _ _ TI0 Q0 JS) as Q.
+  intros ND V NF JS ST0. pose proof (stuck0_stuck _ ST0) as ST.
+  pose proof (Tinv_reachable cs l ND V) as TI0. pose proof (qinv_reachable cs l ND V NF) as Q0.
+  pose proof (Tinv_jsteps _ _ TI0 (jsteps0_jsteps _ _ JS)) as TI. pose proof (qinv_jsteps _ _ TI0 Q0 JS) as Q.
   destruct (stuck_quiescent st' TI ST) as (QU & _). destruct (stuck_no_job st' ST) as (_ & _ & JC & _).
   apply complete_at_rest; assumption.
 Qed.
